@@ -98,9 +98,10 @@ NOT_EXECUTED = ['several focal planes in tiled images',
                 'constructor refuses (signed / 32-64 bit integers, big-endian)',
                 'float32 / float64 parametric maps (cannot be read through the image interface at all: open '
                 'finding D35 of C19); parametric maps with several channels (4D pixel arrays); tiled parametric '
-                'maps with explicit plane_positions that are NOT those of the source frames in source order '
-                '(the constructor then records a total pixel matrix that is too large - reported as a defect of '
-                'the unchanged code, see claims note); encapsulated transfer syntaxes for '
+                'maps with explicit plane_positions in another order / of a part of the tile grid next to a source '
+                'with a NON-ZERO Z offset (the constructor writes no ZOffsetInSlideCoordinateSystem into the origin '
+                'it computes itself - reported as a defect of the unchanged code, see claims note), or whose '
+                'listed tiles do not include the top left tile / do not form a rectangle (not modelled); encapsulated transfer syntaxes for '
                 'BINARY segmentations (not generated)']
 RULE = ('std_*: exhaustive small cube of (start, end, n, as_indices) in all argument forms; vol: 48 signed axis '
         'permutations + rational oblique rotations x both handednesses x dyadic anisotropic spacings x positions x '
@@ -137,7 +138,10 @@ RULE = ('std_*: exhaustive small cube of (start, end, n, as_indices) in all argu
         'count) x explicit orientation / measures x recorded slice spacing or none x gaps x uint8 / uint16 x '
         'transfer syntax x reader (memory, eager file, lazy file) x allow_missing_positions x sub-volume '
         'arguments; pm_err: count of positions differs from the count of planes; pm_tiled: TILED_FULL / '
-        'TILED_SPARSE source with frames in any order x explicit (source) positions x region x reader. '
+        'TILED_SPARSE source with frames in any order x plane_positions (none | the source\'s in source order | all '
+        'tiles in another order | a rectangular part of the tile grid containing the top left tile, any order - '
+        'each at least once) x region x reader; observed: geometry, get_volume(region), declared '
+        'TotalPixelMatrixRows / Columns, get_total_pixel_matrix(). '
         'non-trivial = more than one slice/voxel or a refusal; distinct by case hash')
 EXHAUSTIVE = {'quick': False, 'thorough': False}
 
@@ -929,10 +933,12 @@ def _pm_case(rng, order=None, entry=None, bad=False):
     return c
 
 
-def _pm_tiled_case(rng):
+def _pm_tiled_case(rng, mode=None):
     """A parametric map in the SLIDE coordinate system whose tiles are aligned with the frames of a tiled source
     image (TILED_FULL, or TILED_SPARSE with its frames stored in any order), positions taken from the source or
-    handed over explicitly (the source's own); read back as total pixel matrix region through get_volume."""
+    handed over explicitly: the source's own in source order ('same'), all of them in another order
+    ('reordered'), or those of a rectangular part of the tile grid that contains the top left tile, in any
+    order ('subgrid'); read back as total pixel matrix region through get_volume."""
     while True:
         c = _tiled_case(rng, False)
         if c['R'] > c['th'] or c['C'] > c['tw']:
@@ -945,9 +951,39 @@ def _pm_tiled_case(rng):
     sparse = rng.random() < 0.6
     if sparse and rng.random() < 0.7:
         rng.shuffle(forder)
+    nr, nc = -(-c['R'] // c['th']), -(-c['C'] // c['tw'])
+    mode = mode or rng.choice([None, None, 'same', 'reordered', 'reordered', 'subgrid', 'subgrid'])
+    listed = None
+    if mode == 'same':
+        listed = list(forder)
+    elif mode == 'reordered':
+        listed = list(range(n))
+        while listed == forder:
+            rng.shuffle(listed)
+            if rng.random() < 0.3:
+                listed = list(range(n))[::-1]
+    elif mode == 'subgrid':      # a rectangular part of the tile grid that contains the top left tile
+        na, nb = rng.randint(1, nr), rng.randint(1, nc)
+        listed = [a * nc + b for a in range(na) for b in range(nb)]
+        if rng.random() < 0.7:
+            rng.shuffle(listed)
     c.update({'kind': 'pm_tiled', 'api': 'image', 'typ': 'LABELMAP', 'dt': dt, 'sparse': sparse, 'forder': forder,
-              'explicit': rng.random() < 0.3, 'rd': rng.choice([None, _rd(rng), _rd(rng)]),
+              'mode': mode, 'listed': listed, 'rd': rng.choice([None, _rd(rng), _rd(rng)]),
               'ts': rng.choice(['explicit', 'implicit', 'rle'])})
+    if listed is not None and listed != forder:
+        # (the constructor writes no Z offset into the origin it computes itself: see NOT_EXECUTED)
+        c['srcz'] = rng.choice([None, '0'])
+        # the declared matrix spans the listed tiles: draw the region inside it
+        Re = (max(t // nc for t in listed) + 1) * c['th']
+        Ce = (max(t % nc for t in listed) + 1) * c['tw']
+        for name, m in (('r', Re), ('c', Ce)):
+            if rng.random() < 0.3:
+                a, b = 0, m
+            else:
+                a = rng.randrange(m)
+                b = rng.randint(a + 1, m)
+            c[name + 's'] = _enc_bound(rng, a, m, c['as_idx'], False)
+            c[name + 'e'] = _enc_bound(rng, b, m, c['as_idx'], True)
     return c
 
 
@@ -1150,6 +1186,8 @@ def gen_cases(rng, tier):
         cases.append(_pm_case(rng))
     for _ in range(nv // 10):
         cases.append(_pm_case(rng, bad=True))
+    for mode in ('same', 'reordered', 'subgrid'):
+        cases.append(_pm_tiled_case(rng, mode))
     for _ in range(nv // 4):
         cases.append(_pm_tiled_case(rng))
     return cases
@@ -1609,6 +1647,16 @@ def _run_pm(c):
         _cleanup(tmp)
 
 
+def _pm_tiled_padded(c):
+    """the caller's tiles laid out on the tile grid: the mask, and 9 in the part of the border tiles that lies
+    outside the total pixel matrix of the source"""
+    R, C, th, tw = c['R'], c['C'], c['th'], c['tw']
+    out = [[9] * (-(-C // tw) * tw) for _ in range(-(-R // th) * th)]
+    for r in range(R):
+        out[r][:C] = c['M'][r]
+    return out
+
+
 def _run_pm_tiled(c):
     import numpy as np
     import highdicom as hd
@@ -1629,22 +1677,26 @@ def _run_pm_tiled(c):
         sm.PerFrameFunctionalGroupsSequence = [items[t] for t in c['forder']]
     nc = -(-C // tw)
     nr = -(-R // th)
-    padded = np.full((nr * th, nc * tw), 9, np.int64)      # outside the total pixel matrix: something non-zero
-    padded[:R, :C] = np.array(c['M'])
+    padded = np.array(_pm_tiled_padded(c), np.int64)
+    listed = c['forder'] if c['listed'] is None else c['listed']
     tiles = np.stack([padded[(t // nc) * th:(t // nc + 1) * th, (t % nc) * tw:(t % nc + 1) * tw]
-                      for t in c['forder']])
+                      for t in listed])
     tiles = _mem_cast(tiles, {'mem': {'dt': c['dt']}})
     kw = {'transfer_syntax_uid': _TS[c['ts']]}
-    if c['explicit']:
-        kw['plane_positions'] = DimensionIndexSequence('SLIDE').get_plane_positions_of_image(sm)
+    if c['listed'] is not None:
+        pps = DimensionIndexSequence('SLIDE').get_plane_positions_of_image(sm)      # in the source's frame order
+        kw['plane_positions'] = [pps[c['forder'].index(t)] for t in listed]
     tmp = []
 
     def f():
         pm = _pm_make([sm], tiles, **kw)
         obj = hd.Image.from_dataset(pm, copy=True) if c['rd'] is None else _reopen(pm, c['rd'], hd.imread, tmp)
         g = obj.get_volume_geometry()
+        tpm = _catch_io(lambda: np.rint(obj.get_total_pixel_matrix(
+            apply_real_world_transform=False)).astype(np.int64).tolist())
         return [_geom_out(g),
-                _catch_io(lambda: _vol_out(obj.get_volume(apply_real_world_transform=False, **_kw(c))))]
+                _catch_io(lambda: _vol_out(obj.get_volume(apply_real_world_transform=False, **_kw(c)))),
+                [int(pm.TotalPixelMatrixRows), int(pm.TotalPixelMatrixColumns)], tpm]
     try:
         return catch(f)
     finally:
@@ -1916,7 +1968,13 @@ def coq_term(c):
     if k in ('std_rc', 'std_rc_err'):
         return (f"(run_std_rc {optz(c['rs'])} {optz(c['re'])} {optz(c['cs'])} {optz(c['ce'])} "
                 f"{zlit(c['rows'])} {zlit(c['cols'])} {_b(c['ai'])} {_b(c['oi'])})")
-    k = {'tiled_mem': 'tiled', 'tiled_place_mem': 'tiled_place', 'tiled_rd': 'tiled', 'pm_tiled': 'tiled'}.get(k, k)
+    k = {'tiled_mem': 'tiled', 'tiled_place_mem': 'tiled_place', 'tiled_rd': 'tiled'}.get(k, k)
+    if k == 'pm_tiled':
+        pos = [c['origin'][0], c['origin'][1], c.get('srcz') or '0']
+        u = 'None' if c['listed'] is None else f"(Some {zl(c['listed'])})"
+        return (f"(run_pm_tiled {_v3(pos)} {_v3(c['rowcos'])} {_v3(c['colcos'])} {qlit(F(c['spr']))} "
+                f"{qlit(F(c['spc']))} {zlit(c['R'])} {zlit(c['C'])} {zlit(c['th'])} {zlit(c['tw'])} "
+                f"{zl(c['forder'])} {u} {zll(_pm_tiled_padded(c))} {_args(c)})")
     if k in ('pm', 'pm_err'):
         s = c['src']
 
@@ -1980,7 +2038,7 @@ def coq_term(c):
         return f"({run} {_b(c['allow_missing'])} {st} {_args(c)})"
     if k in ('tiled', 'tiled_err'):
         pos = [c['origin'][0], c['origin'][1], c.get('srcz') or '0']
-        return (f"(run_tiled {_b(c['api'] == 'seg' or c['kind'] == 'pm_tiled')} {_v3(pos)} {_v3(c['rowcos'])} {_v3(c['colcos'])} "
+        return (f"(run_tiled {_b(c['api'] == 'seg')} {_v3(pos)} {_v3(c['rowcos'])} {_v3(c['colcos'])} "
                 f"{qlit(F(c['spr']))} {qlit(F(c['spc']))} None {zlit(c['R'])} {zlit(c['C'])} {zll(c['M'])} {_args(c)})")
     if k in ('pyr_multi', 'pyr_multi_err'):
         z = c.get('srcz') or '0'
@@ -2257,6 +2315,33 @@ def _oracle_pm(c, out):
     return _check_sub(c, full, sub, n0)
 
 
+def _oracle_pm_tiled(c, out):
+    """a tiled parametric map: the total pixel matrix it declares spans the listed tiles (at least their part
+    inside the source's matrix, at most whole tiles), starts where the source's starts (the top left tile is
+    always listed), holds every pixel of every listed tile at its place, and get_volume returns the documented
+    region of it at the position of its first pixel"""
+    import numpy as np
+    if isinstance(out, Err):
+        return f'a valid tiled parametric map could not be built: {out}'
+    geo, vol, declared, tpm = out
+    R, C, th, tw = c['R'], c['C'], c['th'], c['tw']
+    nc = -(-C // tw)
+    listed = c['forder'] if c['listed'] is None else c['listed']
+    hi_r, hi_c = (max(t // nc for t in listed) + 1) * th, (max(t % nc for t in listed) + 1) * tw
+    lo_r, lo_c = min(R, hi_r), min(C, hi_c)
+    Rd, Cd = declared
+    if not (lo_r <= Rd <= hi_r and lo_c <= Cd <= hi_c):
+        return (f'declared total pixel matrix {Rd} x {Cd}; the listed tiles span {lo_r} x {lo_c} pixels of the '
+                f'source ({hi_r} x {hi_c} with whole border tiles)')
+    padded = np.array(_pm_tiled_padded(c))
+    if isinstance(tpm, Err):
+        return f'get_total_pixel_matrix() of the parametric map fails: {tpm}'
+    if not np.array_equal(np.array(tpm), padded[:Rd, :Cd]):
+        return 'get_total_pixel_matrix() does not hold the listed tiles at their places'
+    # the rest is the judgement of a tiled image whose matrix is the declared one
+    return oracle(dict(c, kind='tiled', R=Rd, C=Cd, M=padded[:Rd, :Cd].tolist()), [geo, vol])
+
+
 def oracle(c, out):
     import numpy as np
     k = c['kind']
@@ -2281,7 +2366,9 @@ def oracle(c, out):
             want = [rr[0] + o, rr[1] + o, cr[0] + o, cr[1] + o]
             return None if list(out) == want else f'returned {out}, documented meaning {want}'
         return None
-    k = {'tiled_mem': 'tiled', 'tiled_place_mem': 'tiled_place', 'tiled_rd': 'tiled', 'pm_tiled': 'tiled'}.get(k, k)
+    k = {'tiled_mem': 'tiled', 'tiled_place_mem': 'tiled_place', 'tiled_rd': 'tiled'}.get(k, k)
+    if k == 'pm_tiled':
+        return _oracle_pm_tiled(c, out)
     if k in ('tiled_place', 'tiled_place_err'):
         return _oracle_place(c, out)
     if k in ('pm', 'pm_err'):
